@@ -68,7 +68,7 @@ def generate(src):
                 ob(s, f"callback/{kind}: receives the current message  [C10]", a0 == to_val(s.env[MSG]))
                 if kind == 'pre_execute': ob(s, "callback/pre_execute: before the task function  [C10]", Not(g['exec_started']))
                 if kind == 'post_execute':
-                    ob(s, "callback/post_execute: after execution, before saving  [C10]", And(g['exec_finished'], g['saves'] == 0, Not(g['save_done'])))
+                    ob(s, "callback/post_execute: after execution, before saving  [C10]", And(g['exec_finished'], g['saves'] == 0))
                     ob(s, "callback/post_execute: receives this execution's result  [C10]", And(len(args) > 1, to_val(args[1]) == Val.ref(g['result'])) if len(args) > 1 else BoolVal(False))
                 if kind == 'post_save':
                     ob(s, "callback/post_save: only after the result was stored  [C10]", And(g['saves'] == 1, g['save_returned']))
@@ -85,7 +85,7 @@ def generate(src):
             ob(s, "callback/ack: at most once  [C02]", g['acks'] == 0)
             ob(s, "callback/ack: when_received => before the task function starts  [C02]", Implies(ACK == 0, Not(g['exec_started'])))
             ob(s, "callback/ack: when_executed => only after the task function finished  [C02]", Implies(ACK == 1, g['exec_finished']))
-            ob(s, "callback/ack: when_saved => only after the save attempt completed or was skipped  [C02]", Implies(ACK == 2, g['save_done']))
+            ob(s, "callback/ack: when_saved => only after the save attempt completed or was skipped  [C02]", Implies(ACK == 2, Or(g['saves'] >= 1, And(g['noresult'], g['exec_finished'], g['post_execute_done']))))          # semantic: control is past a set_result call (it returned, or raised and was caught), or the outcome is no-result and the point where saving would start has been reached
             ob(s, "callback/ack: only on messages delivered with an acknowledge callback  [C02]", ackable)
             setG(s, acks=g['acks'] + 1)
             ok = s.fork(); k2(ok, None)
@@ -159,11 +159,6 @@ def generate(src):
                 if u == f'{MW}.__class__.{kind} != TaskiqMiddleware.{kind}': return k(st, PyBool(over(kk, G(st)['__i'])))
                 if u == f'{MW}.__class__.{kind} == TaskiqMiddleware.{kind}': return k(st, PyBool(Not(over(kk, G(st)['__i']))))
             return super().ev_Compare(e, st, k, K)
-        def st_Try(self, s, st, k, K):
-            if 'set_result' not in ast.unparse(s): return super().st_Try(s, st, k, K)
-            # the statement: the save attempt "has completed" (returned, or failed and was caught) "or was skipped for a no-result outcome"
-            def k_done(s2): setG(s2, save_done=BoolVal(True)); return k(s2)
-            return super().st_Try(s, st, k_done, K)
     H = {'logger.*': noop, 'self.broker.formatter.loads': h_loads, MSG + '.parse_labels': h_parse_labels, 'self.broker.find_task': h_find_task, 'maybe_awaitable': h_maybe_awaitable,
          MW + '.pre_execute': h_hook('pre_execute'), MW + '.post_execute': h_hook('post_execute'), MW + '.post_save': h_hook('post_save'), '*.ack': h_ack,
          'self.run_task': h_run_task, 'self.broker.result_backend.set_result': h_set_result, 'isinstance': h_isinstance, '@for': h_for}
